@@ -133,13 +133,15 @@ impl<'a> RefSearch<'a> {
     /// self-test and of the thorough runs.
     pub fn negamax_ab(&mut self, p: &Pos, ply: usize, depth: usize, mut alpha: i32, beta: i32) -> i32 {
         self.nodes += 1;
-        let moves = p.legal();
+        let mut moves = p.legal();
         if moves.is_empty() {
             return (self.eval)(p, false);
         }
         if ply == depth {
             return self.quiesce_ab(p, alpha, beta);
         }
+        // captures and promotions first: pure ordering, no effect on the value
+        moves.sort_by_key(|m| (-(m.captured as i32) * 16 - (m.promo as i32) * 4 + m.piece as i32, m.from, m.to));
         let mut best = -i32::MAX;
         for m in moves {
             let v = -self.negamax_ab(&p.make(&m), ply + 1, depth, -beta, -alpha);
